@@ -348,7 +348,10 @@ CACHES = {
 def route_step(d, cache):
     w = World()
     lans = {n: LogNet(n) for n in (1, 2, 3)}
-    r = Router([1, 2, 3], lans, 10)
+    # the router has another MAC on each of its networks (MACs are unique per LAN only): 11, 12, 13
+    r = Router([], lans, 0)
+    for net in (1, 2, 3):
+        r.nsap.bind(Node(Address(10 + net), lans[net]), net, Address(10 + net))
     a = d.pick([1, 2, 3], 'arrival_port')
     others = [n for n in (1, 2, 3) if n != a]
     via = {}
@@ -377,9 +380,9 @@ def route_step(d, cache):
             dnet = d.pick([a, others[0], others[1], 20, 21, 22], 'dnet')
             if dk == "station":
                 dmac = d.int(1, 254, 'dmac')
-                # MAC 10 is the router itself on each of its ports; a packet addressed to the router is for its own
-                # application, which this step does not model
-                d.assume(dmac != 10)
+                # a packet addressed to the router itself (its MAC on the destination network) is for its own application,
+                # which this step does not model; the router's MAC on ANOTHER network is an ordinary station address here
+                d.assume(not (dnet in (1, 2, 3) and dmac == 10 + dnet))
                 hdr += bytes([dnet >> 8, dnet & 255, 1, dmac])
             else:
                 hdr += bytes([dnet >> 8, dnet & 255, 0])
@@ -393,7 +396,7 @@ def route_step(d, cache):
         hdr += bytes([hop])
     frame = bytes([1, control]) + hdr + body
     dest = d.pick(["to-router", "broadcast"], 'mac_destination')
-    src.request(PDU(frame, destination=Address(10) if dest == "to-router" else LocalBroadcast()))
+    src.request(PDU(frame, destination=Address(10 + a) if dest == "to-router" else LocalBroadcast()))
     w.run()
 
     # reference forwarding rule
@@ -449,7 +452,7 @@ def route_step(d, cache):
         b = others[0]
         back = _raw(lans[b], 98)
         reply = bytes([1, 0x20, 0, 30, 1, smac, 255, 0x10, 0x08, 0x5A])
-        back.request(PDU(reply, destination=Address(10)))
+        back.request(PDU(reply, destination=Address(10 + b)))
         w.run()
         for n in (1, 2, 3):
             got = [(dd, wire.parse_npdu(data)) for (s_, dd, data) in lans[n].frames
